@@ -124,6 +124,7 @@ def C09(tier):
     jobs = [
         bjob('felock.p1c1.i1.r2', src, ['t0', 't1'], 2, ['-DNP=1', '-DNC=1', '-DITEMS=1']),
         bjob('felock.plainlock_vs_status.r3', src, ['t0', 't1'], 3, ['-DNP=1', '-DNC=1', '-DITEMS=1', '-DPLAINLOCK=1']),
+        bjob('felock.mark_same_status_wakes_sleeper.r3', src, ['t0', 't1'], 3, ['-DNP=1', '-DNC=1', '-DITEMS=1', '-DSLEEPER=1']),
     ]
     if tier == 'thorough':
         jobs += [bjob('felock.p1c1.i2.r2', src, ['t0', 't1'], 2, ['-DNP=1', '-DNC=1', '-DITEMS=2'], timeout=14000, mem_gb=16),
@@ -176,11 +177,12 @@ def C11(tier):
     jobs = [ajob('walk.%s' % names[i], wsrc, ['-DSCEN=%d' % i, '-DVERIF_LOCAL_NODES=1'], unwind=18, timeout=1500, cfg=dict(text_patches=(inner if i in (1, 2) else top if i == 3 else [])),
                  bounds=dict(step='one level of the recursive walk from an arbitrary node: symbolic depth, key base, child pattern / leaf contents and destructor table; the recursive self-call is redirected to a recording stub by a text patch on the preprocessed copy (inductive step)'))
             for i in range(5)]
+    jobs.append(ajob('fresh_node_clean', 'harness/C10_fresh.c', [], unwind=18, timeout=900, cfg=dict(real_tls_types=True), bounds=dict(memory='recycled descriptor pool and malloc chunk with arbitrary previous contents; real node type, byte-level')))
     if tier == 'thorough':
         # end-to-end: two symbolic keys over all 1024 indices, case-split on the root-level branch of each key (16 sub-queries)
         for r0 in range(4):
             for r1 in range(4):
-                jobs.append(ajob('dtor.k2.r%d%d' % (r0, r1), src, ['-DNK=2', '-DNPOOL=9', '-DLEAK=1', '-DR0=%d' % r0, '-DR1=%d' % r1], unwind=18, timeout=14000, mem_gb=6,
+                jobs.append(ajob('dtor.k2.r%d%d' % (r0, r1), src, ['-DNK=2', '-DNPOOL=9', '-DLEAK=1', '-DGARBAGE=1', '-DR0=%d' % r0, '-DR1=%d' % r1], unwind=18, timeout=14000, mem_gb=6,
                                  bounds=dict(keys='2 symbolic keys with (k0>>8, k1>>8) = (%d,%d); union over the 16 sub-queries = all pairs of the 1024 indices; all heap nodes released' % (r0, r1))))
     return dict(jobs=jobs, assumptions=A_ASSUME + ['compositional argument: leaf step + internal step (recursive call replaced by a recording stub) + top call give the property for every subset of keys by induction on the tree depth; that set() files key k under the digits of k is C10 (tree harness)',
                                                  'tree nodes come from a typed static pool standing for real_malloc; the embedded pre-allocation pool is put into its valid state "exhausted"',
@@ -190,13 +192,14 @@ def C11(tier):
 
 def C10(tier):
     jobs = [ajob('tree.k2', 'harness/C10_tree.c', ['-DNK=2', '-DNPOOL=9'], unwind=18, timeout=1500, bounds=dict(keys='2 stored keys + 1 queried key, each symbolic in [-2, 1025]')),
+            ajob('fresh_node_clean', 'harness/C10_fresh.c', [], unwind=18, timeout=900, cfg=dict(real_tls_types=True), bounds=dict(memory='recycled descriptor pool and malloc chunk with arbitrary previous contents; real node type, byte-level')),
             ajob('keyalloc.seq.a5', 'harness/C10_keyalloc_seq.c', ['-DKA_A=5', '-DKA_B=63'], unwind=6, timeout=900, cfg=KEYTAB64, bounds=dict(key_table='scaled to 64 cells by patching the enumerator myth_tls_tree_depth 3 -> 1 in the preprocessed copy (the allocator code is unchanged and parametric in the table size; the full 16 KB table ran the SAT instance out of memory)', state='free list [5,63], all other cells live; deleted key symbolic over {5, 1023, any out-of-range int}; 6 operations')),
             ajob('keyalloc.seq.a0', 'harness/C10_keyalloc_seq.c', ['-DKA_A=0', '-DKA_B=17'], unwind=6, timeout=900, cfg=KEYTAB64, bounds=dict(key_table='scaled to 64 cells (see keyalloc.seq.a5)', state='free list [0,17]; deleted key symbolic over {0, 256, any out-of-range int}'))]
     if tier == 'thorough':
         jobs.append(bjob('keyalloc.conc.r4', 'harness/C10_keyalloc_conc.c', ['t0', 't1'], 4, ['-DMODE=1'], preempt='all', delete=['empty_loop'], special={},
                          extra_cfg=dict(env_model=None, text_patches=KEYTAB64['text_patches']), unwind=66, timeout=2400,
                          bounds=dict(key_table='scaled to 64 cells (enumerator patch, see keyalloc.seq.a5)', threads='T0: create, create; T1: create, create, delete, create')))
-        jobs += [ajob('tree.k3', 'harness/C10_tree.c', ['-DNK=3', '-DNPOOL=13'], unwind=18, timeout=7200, mem_gb=24, bounds=dict(keys='3 stored keys + 1 queried key'))]
+        jobs += [ajob('tree.k3', 'harness/C10_tree.c', ['-DNK=3', '-DNPOOL=13', '-DGARBAGE=1'], unwind=18, timeout=7200, mem_gb=24, bounds=dict(keys='3 stored keys + 1 queried key'))]
     return dict(jobs=jobs, assumptions=A_ASSUME + ['tree nodes come from typed static pools standing for real_malloc'],
                 functions=['myth_tls_tree_get', 'myth_tls_tree_set', 'myth_tls_tree_init', 'myth_tls_key_allocator_alloc', 'myth_tls_key_allocator_dealloc'])
 
@@ -267,7 +270,8 @@ def C02(tier):
                     delete=['empty_loop'], special={}, extra_cfg=dict(env_model=None), bounds=dict(capacity=cap), unwind=cap + 2)
     T2 = ['t0', 't1']; T3 = ['t0', 't1', 't2']
     jobs = [dj('deque.pop2_take.sc.r3', 0, T2, 3, False), dj('deque.pop2_take.tso.r3', 0, T2, 3, True),
-            dj('deque.pushpop_take.tso.r3', 8, T2, 3, True), dj('deque.pop_take_take.tso.r3', 3, T3, 3, True)]
+            dj('deque.pushpop_take.tso.r3', 8, T2, 3, True), dj('deque.pop_take_take.tso.r3', 3, T3, 3, True),
+            dj('deque.trypass_lower_boundary.sc.r3', 9, T2, 3, False, cap=4)]
     if tier == 'thorough':
         jobs += [dj('deque.pop2_take.tso.r5', 0, T2, 5, True, timeout=10000, mem=20), dj('deque.3elem.tso.r4', 2, T2, 4, True, timeout=10000, mem=20),
                  dj('deque.push_take2.tso.r3', 1, T2, 3, True, timeout=10000, mem=20),
